@@ -1,6 +1,7 @@
 package main
 
 import (
+	"runtime"
 	"fmt"
 	"io"
 	"net"
@@ -227,8 +228,112 @@ func init() {
 		if err := multiSessionCheck(tier, seed, res); err != nil {
 			return err
 		}
+		slowReader(tier, res)
 		collectRaceReports(res, "race")
 		return compareProjection(cases, res)
+	}
+}
+
+// tagHandler answers register reads with the unit id in every byte: a response identifies the
+// connection (each uses its own unit id) it was computed for.
+type tagHandler struct{}
+
+func (tagHandler) HandleCoils(r *modbus.CoilsRequest) ([]bool, error) { return nil, modbus.ErrIllegalFunction }
+func (tagHandler) HandleDiscreteInputs(r *modbus.DiscreteInputsRequest) ([]bool, error) {
+	return nil, modbus.ErrIllegalFunction
+}
+func (tagHandler) HandleHoldingRegisters(r *modbus.HoldingRegistersRequest) ([]uint16, error) {
+	out := make([]uint16, r.Quantity)
+	for i := range out {
+		out[i] = uint16(r.UnitId)<<8 | uint16(r.UnitId)
+	}
+	return out, nil
+}
+func (tagHandler) HandleInputRegisters(r *modbus.InputRegistersRequest) ([]uint16, error) {
+	return nil, modbus.ErrIllegalFunction
+}
+
+// slowReader: connection A pipelines many requests and does not read, so that the server's writes
+// to A come to a halt in the middle of a response; meanwhile connection B runs ordinary
+// exchanges; then A reads everything. Every byte A receives must belong to a response computed
+// for A (transaction ids in order, A's unit id, A's data) — "every response is written only to the
+// connection that sent the request".
+func slowReader(tier string, res *Result) {
+	// one P: whatever the sessions share per processor (pools, caches) is then shared by all of them
+	prev := runtime.GOMAXPROCS(1)
+	defer runtime.GOMAXPROCS(prev)
+	rounds := scale(tier, 2, 6)
+	for round := 0; round < rounds; round++ {
+		srv, err := modbus.NewServer(&modbus.ServerConfiguration{URL: "tcp://127.0.0.1:0", Timeout: 3 * time.Second, MaxClients: 4, Logger: quietLog}, tagHandler{})
+		if err != nil {
+			res.Note("slow reader: " + err.Error())
+			return
+		}
+		if err := srv.Start(); err != nil {
+			res.Note("slow reader: " + err.Error())
+			return
+		}
+		addr := srv.VerifListenAddr().String()
+		a, errA := net.Dial("tcp", addr)
+		b, errB := net.Dial("tcp", addr)
+		if errA != nil || errB != nil {
+			srv.Stop()
+			res.Note("slow reader: dial failed")
+			return
+		}
+		if tc, ok := a.(*net.TCPConn); ok {
+			tc.SetReadBuffer(4096) // a small window: the server's send path fills up soon
+		}
+		const nA = 30000
+		go func() {
+			for i := 0; i < nA; i++ {
+				if _, err := a.Write(mbapFrame(uint16(i), 0, 0xa1, 3, append(be16b(0), be16b(125)...))); err != nil {
+					return
+				}
+			}
+		}()
+		time.Sleep(300 * time.Millisecond) // let the responses pile up until the server's write blocks
+		badB := ""
+		for i := 0; i < 400 && badB == ""; i++ {
+			b.Write(mbapFrame(uint16(0x8000+i), 0, 0xb2, 3, append(be16b(0), be16b(125)...)))
+			b.SetReadDeadline(time.Now().Add(time.Second))
+			fr := make([]byte, 259)
+			if _, err := io.ReadFull(b, fr); err != nil {
+				badB = "no response: " + err.Error()
+				break
+			}
+			if fr[0] != byte((0x8000+i)>>8) || fr[1] != byte(0x8000+i) || fr[6] != 0xb2 || fr[9] != 0xb2 || fr[258] != 0xb2 {
+				badB = "frame " + hx(fr[:12]) + "…" + hx(fr[250:])
+			}
+		}
+		// now A reads: frames in order, all its own
+		badA := ""
+		got := 0
+		a.SetReadDeadline(time.Now().Add(8 * time.Second))
+		fr := make([]byte, 259)
+		for got < nA && badA == "" {
+			if _, err := io.ReadFull(a, fr); err != nil {
+				break // the server's write deadline ended a blocked response: the stream may stop or skip — only content is judged
+			}
+			ok := fr[2] == 0 && fr[3] == 0 && fr[4] == 0 && fr[5] == 253 && fr[6] == 0xa1 && fr[7] == 3 && fr[8] == 250
+			for k := 9; k < 259 && ok; k++ {
+				ok = fr[k] == 0xa1
+			}
+			if !ok {
+				badA = fmt.Sprintf("after %d good responses: %s…%s", got, hx(fr[:12]), hx(fr[246:]))
+			}
+			got++
+		}
+		line := fmt.Sprintf("connection A (unit a1) pipelines %d reads of 125 registers without reading; connection B (unit b2) runs 400 exchanges meanwhile; then A reads", nA)
+		res.Eval("slow-reader", badA == "" && badB == "", line)
+		if badA != "" || badB != "" {
+			res.Add(Finding{Kind: "property", Check: "slow-reader", Line: line, Impl: "A: " + badA + " | B: " + badB,
+				Expect: "every frame on A is a response computed for A (unit a1, data a1…), every frame on B one for B",
+				Note:   "a response (or part of it) was written to a connection other than the one that sent the request"})
+		}
+		a.Close()
+		b.Close()
+		srv.Stop()
 	}
 }
 
